@@ -83,6 +83,36 @@ def tsan_reports(text):
     return out
 
 
+_HG_FRAME = re.compile(r'==\d+==\s+(?:at|by) 0x[0-9A-F]+: (\S+) \(([^)]*)\)')
+_SRC_FILES = None
+
+
+def helgrind_reports(text):
+    """-> [(kind, library function or None, block)].  A report counts against the library only when the racing access itself
+    (the first frame outside valgrind's own replacement functions) is in a source file of the working tree: accesses made
+    by libc under its own internal locks (tzset, stdio), which helgrind cannot see, are counted separately."""
+    global _SRC_FILES
+    if _SRC_FILES is None:
+        _SRC_FILES = set(os.listdir(os.path.join(build.REPO, 'src'))) | set(os.listdir(os.path.join(build.REPO, 'include', 'gmssl')))
+    out = []
+    for blk in re.split(r'==\d+== -{40,}\n', text):
+        m = re.search(r'Possible data race|lock order|Thread #\d+: (?:Exiting|pthread_\w+)[^\n]*', blk)
+        if not m or 'Thread-Announcement' in blk.split('\n')[0]:
+            continue
+        kind = 'data-race' if 'Possible data race' in blk else 'lock-order' if 'lock order' in blk else 'misuse'
+        fn = None
+        for f in _HG_FRAME.finditer(blk):
+            where = f.group(2)
+            if 'vgpreload' in where:
+                continue
+            base = where.split(':')[0]
+            if base in _SRC_FILES:
+                fn = f.group(1)
+            break
+        out.append((kind, fn, blk))
+    return out
+
+
 def main(run):
     t0 = time.time()
     pki = os.path.join(run.workdir, 'pki')
@@ -95,6 +125,7 @@ def main(run):
     try:
         exe_t = compile_harness('tsan', '-fsanitize=thread')
         exe_a = compile_harness('asan-static', '-fsanitize=address ' + build.UBSAN_SUBSET + ' -fno-sanitize-recover=all')
+        exe_p = compile_harness('plain-static', '') if run.tier != 'quick' else None
     except Exception as e:
         run.inconclusive_because(str(e)[-2500:])
         return
@@ -121,6 +152,14 @@ def main(run):
                 sched.append((exe_t, 'tsan', T, 16, 8 if rep % 2 else 11, run.seed * 1000 + 700 + rep * 17 + T))
         for rep in range(4):
             sched.append((exe_a, 'asan', 16, 16, 11, run.seed * 1000 + 900 + rep * 17))
+    if not q:
+        # second race detector with a different algorithm and its own interception of libc: helgrind on an uninstrumented build
+        for rep in range(3):
+            sched.append((exe_p, 'helgrind', 4, 2, (3, 9, 11)[rep], run.seed * 1000 + 1300 + rep * 17))
+        run.flavours_used.add('plain-static')
+    only = os.environ.get('VF_C20_ONLY')          # development aid: restrict the schedule to one detector
+    if only:
+        sched = [j for j in sched if j[1] == only]
     orders = set()
     dedup = {}
     total_reports = 0
@@ -132,6 +171,8 @@ def main(run):
         env['TSAN_OPTIONS'] = 'halt_on_error=0:log_path=%s:second_deadlock_stack=1:history_size=4' % logp
         env['ASAN_OPTIONS'] = 'detect_leaks=0:abort_on_error=0:exitcode=97:log_path=%s' % logp
         cmd = [exe, str(T), str(iters), str(seed), pki, str(VT), str(mode)]
+        if kind == 'helgrind':
+            cmd = ['valgrind', '--tool=helgrind', '-q', '--log-file=%s.hg' % logp] + cmd
         try:
             p = subprocess.run(cmd, env=env, stdout=subprocess.PIPE, stderr=subprocess.DEVNULL, timeout=3000)
             return job, logp, p.returncode, p.stdout
@@ -146,7 +187,7 @@ def main(run):
             continue
         logs = ''
         for fn in sorted(os.listdir(run.workdir)):
-            if fn.startswith(os.path.basename(logp) + '.'):
+            if fn.startswith(os.path.basename(logp) + '.') or fn == os.path.basename(logp) + '.hg':
                 with open(os.path.join(run.workdir, fn), errors='replace') as f:
                     logs += f.read()
         try:
@@ -175,6 +216,17 @@ def main(run):
             run.add_distinct(('digest', dg))
         run.sample({'sanitizer': kind, 'threads': T, 'ops_per_thread': res['ops'][:4], 'handshakes_completed': res['handshakes_completed'],
                     'order_fingerprint': res['order_fingerprint'], 'mismatches': res['mismatches']})
+        if kind == 'helgrind':
+            for hkind, fn, blk in helgrind_reports(logs):
+                total_reports += 1
+                if fn is None:
+                    non_library_reports += 1
+                    continue
+                sig = ('helgrind-' + hkind, (fn,))
+                if sig not in dedup:
+                    dedup[sig] = blk
+                    run.violation('C20:helgrind:%s:%s' % (hkind, fn), dict(cfg, report=blk[:6000]))
+            run.stat('helgrind_executions')
         if kind == 'tsan':
             for rkind, frames, blk in tsan_reports(logs):
                 total_reports += 1
